@@ -78,6 +78,11 @@ type serverConn struct {
 	writeStop     chan struct{}
 	writeStopOnce sync.Once
 
+	// acceptLck makes "take the stream and name it in lastID" one step as far
+	// as a GOAWAY from another goroutine is concerned: writeGoAway reads lastID
+	// and marks the connection closing under it.
+	acceptLck sync.Mutex
+
 	// handlerDone carries a stream back to the stream loop once its handler has
 	// returned. Handlers run on their own goroutines so that a slow request
 	// does not hold up the other streams on the connection, but everything the
@@ -892,7 +897,28 @@ loop:
 				// if the client has more open streams than the maximum allowed OR
 				//   the connection is closing, then refuse the stream. Only HEADERS
 				//   opens a stream: anything else on an idle id is dealt with below.
-				if fr.Type() == FrameHeaders && (openStreams >= int(sc.st.maxStreams) || wasClosing) {
+				// The read loop can send a GOAWAY of its own between the snapshot
+				// above and here. Either that GOAWAY sees this stream in lastID, or
+				// this stream sees the connection closing: a stream that is taken
+				// after a GOAWAY that did not name it gets its request run twice,
+				// once here and once wherever the client replays it.
+				accepted := false
+
+				if fr.Type() == FrameHeaders && openStreams < int(sc.st.maxStreams) && !wasClosing {
+					sc.acceptLck.Lock()
+
+					if !isClosing() {
+						atomic.StoreUint32(&sc.lastID, fr.Stream())
+
+						accepted = true
+					}
+
+					sc.acceptLck.Unlock()
+
+					wasClosing = !accepted
+				}
+
+				if fr.Type() == FrameHeaders && !accepted {
 					if sc.debug {
 						if wasClosing {
 							sc.logger.Printf("Closing the connection. Rejecting stream %d\n", fr.Stream())
@@ -935,7 +961,6 @@ loop:
 				// HEADERS frame and streams that are reserved using PUSH_PROMISE.
 				if fr.Type() == FrameHeaders {
 					openStreams++
-					atomic.StoreUint32(&sc.lastID, fr.Stream())
 				}
 
 				sc.createStream(sc.c, fr.Type(), strm)
@@ -1138,7 +1163,13 @@ func (sc *serverConn) writeGoAway(strm uint32, code ErrorCode, message string) {
 	// stream, if any, the error is about: the peer replays everything above it
 	// (RFC 7540 6.8). It is written by the stream loop and read here from the
 	// read loop and the idle timer as well, hence the atomics.
+	sc.acceptLck.Lock()
+
 	last := atomic.LoadUint32(&sc.lastID)
+
+	atomic.StoreInt32((*int32)(&sc.state), int32(connStateClosed))
+
+	sc.acceptLck.Unlock()
 
 	ga.SetStream(last)
 	ga.SetCode(code)
@@ -1151,8 +1182,6 @@ func (sc *serverConn) writeGoAway(strm uint32, code ErrorCode, message string) {
 	if strm != 0 {
 		atomic.StoreUint32(&sc.closeRef, last)
 	}
-
-	atomic.StoreInt32((*int32)(&sc.state), int32(connStateClosed))
 
 	if sc.debug {
 		sc.logger.Printf(
